@@ -131,6 +131,7 @@ CONFIGS = {
 SIMULATE = {"big3": (6000, 150), "big4": (6000, 150)}
 
 FOR_PROPERTY = {
+  "C01": (["wev2"], ["wev2s"]),
   "C04": (["wait2", "wev2"], ["wait2r", "wev2s", "lost2", "end2"]),
   "C11": (["buf2"], ["buf3"]),
   "C12": (["queue2"], ["queue3"]),
